@@ -1,4 +1,6 @@
 CONSTANTS MaxCtx = 1
+          BufSize = 4
+          BlankShortcut = FALSE
           MaxRecords = 3
 INIT SLInit
 NEXT SLNext
